@@ -19,7 +19,10 @@ var stateless = map[string]bool{"C01": true, "C02": true, "C03": true, "C04": tr
 	"C09": true, "C10": true, "C11": true, "C12": true, "C16": true, "C17": true, "C18": true, "C19": true}
 
 func init() {
-	register("C18", false, func(p *core.Prog, r *core.Report, tier string) { tables.C18(p, r) })
+	register("C18", false, func(p *core.Prog, r *core.Report, tier string) {
+		tables.C18(p, r)
+		tables.SearchShortcut(p, r)
+	})
 	register("C01", false, func(p *core.Prog, r *core.Report, tier string) {
 		tables.C01(p, r)
 		tables.PadAgree(p, r)
@@ -41,6 +44,8 @@ func init() {
 		tables.C16(p, r)
 		tables.ResidueClass(p, r)
 		tables.IndexExact(p, r)
+		tables.ResidueVerbatim(p, r)
+		tables.FastFallback(p, r)
 		traps.OriginLength(p, r, true)
 		globals.ShallowCache(p, r)
 	})
@@ -108,6 +113,8 @@ func init() {
 		conserve.QualifierRules(p, r)
 		conserve.ValuesOnly(p, r)
 		conserve.SelectorRules(p, r)
+		conserve.FilterDelegate(p, r)
+		conserve.StrandTally(p, r)
 		r.NotDecided = append(r.NotDecided, "selector grammar and regexp semantics", "the tie-break and the recursive cases of LocationLess", "boolean-algebra laws of And/Or/Not", "the binary search of FeatureSlice.Insert")
 	})
 	register("C04", true, func(p *core.Prog, r *core.Report, tier string) {
@@ -214,6 +221,7 @@ func init() {
 		effects.C11(p, r)
 		globals.ShallowCache(p, r)
 		conserve.LocatorFresh(p, r) // a locator is applied to record after record: what it returns must not be shared between calls
+		tables.ResidueVerbatim(p, r) // (*Origin).Bytes flips a shared *Origin to "re-encode on demand": harmless only while re-encoding is exact
 	})
 	register("C13", false, func(p *core.Prog, r *core.Report, tier string) {
 		integrity.C13(p, r)
